@@ -77,6 +77,8 @@ class Normalizer:
       if not isinstance(cur, ast.Name):
         raise Skip("odd attribute expression in a type")
       parts.append(cur.id)
+      if cur.id in self.foreign:
+        self.bare_foreign.append(".".join(reversed(parts)))
       if in_literal:
         return ("c", ".".join(reversed(parts)))   # enum member inside Literal[...]
       return ("n", self.name(".".join(reversed(parts))))
